@@ -858,6 +858,46 @@ pub fn run_c07(tier: Tier) -> i32 {
         }
     });
     fams.push(json!({"family": "first go after the game followed the engine's own line (1 or 2 plies of its PV): every legal move as searchmoves, shallow and zero budget", "cases": cont_jobs.len(), "gos": stats.gos.load(Ordering::Relaxed) - before_cont, "secs": t0.elapsed().as_secs_f64()}));
+    // ---- (2e) whole games on one engine: the position command grows by the engine's own answer,
+    // the go command cycles through limits (zero budgets included); every answer is judged
+    let t0 = Instant::now();
+    let before_games = stats.gos.load(Ordering::Relaxed);
+    let game_gos: [&[&str]; 3] = [&["go depth 2", "go movetime 0", "go wtime 1000 btime 1000 winc 0 binc 0", "go depth 1"], &["go movetime 0"], &["go depth 3", "go wtime 0 btime 0", "go depth 1 searchmoves a1a1", "go movetime 1"]];
+    let game_jobs: Vec<(usize, usize)> = [0usize, 1, 7, 9].into_iter().flat_map(|pi| (0..game_gos.len()).map(move |g| (pi, g))).collect();
+    par_map_fine(&game_jobs, |&(pi, g)| {
+        let (base, moves0, tag) = &positions[pi];
+        let mut moves = moves0.clone();
+        let mut root = base.clone();
+        for u in &moves {
+            let m = root.find_legal_uci(u).unwrap();
+            root = root.make(&m);
+        }
+        let mut line = vec![root.clone()];
+        let mut s = Session::new(false);
+        let plies = if tier == Tier::Quick { 160 } else { 600 };
+        for ply in 0..plies {
+            if !root.has_legal_move() || refchess::search::RefSearch::occurrences(&line) >= 3 || root.half >= 90 {
+                break;
+            }
+            let go = game_gos[g][ply % game_gos[g].len()];
+            let pos_line = position_line(base, &moves);
+            s.line(&pos_line);
+            let spec = GoSpec { line: go.to_string(), needs_stop: false, searchmoves: if go.contains("searchmoves") { vec!["a1a1".into()] } else { vec![] } };
+            stats.gos.fetch_add(1, Ordering::Relaxed);
+            let out = run_go(&mut s, go, Plan::virtual_rate(1_000_000), &none);
+            let late_best = s.settle(Duration::from_millis(1)).iter().filter(|e| matches!(e, Ev::Best(..))).count();
+            c07_judge(&rep, &root, tag, &pos_line, &spec, "1ms/node", &out, late_best, json!({"whole_game_on_one_engine": true, "ply_of_the_game": ply, "go_cycle": game_gos[g]}));
+            let m = match out.best.as_ref().and_then(|b| root.find_legal_uci(b)) {
+                Some(m) => m,
+                None => break,
+            };
+            moves.push(m.uci());
+            root = root.make(&m);
+            line.push(root.clone());
+        }
+        s.quit();
+    });
+    fams.push(json!({"family": "whole games played by the engine against itself on one instance, go limits cycling (zero budgets included)", "games": game_jobs.len(), "gos": stats.gos.load(Ordering::Relaxed) - before_games, "secs": t0.elapsed().as_secs_f64()}));
     // ---- (2c) in-search message alphabet: message X first visible at poll k1, stop at poll k2 >= k1;
     // and stray messages while idle before the go (they must be ignored)
     let t0 = Instant::now();
